@@ -192,10 +192,19 @@ pub fn shrink(prop: &str, spec: &RunSpec, class: (&str, &str), budget: usize) ->
 /// Returns (path, minimised spec, confirmed).
 pub fn handle_failure(prop: &str, f: &Failure, dir: &str, seed: u64) -> (String, RunSpec, bool) {
     let _ = std::fs::create_dir_all(dir);
-    let confirmed = match class_of(prop, &f.spec) {
-        Some((p, c, _)) => p == f.prop && c == f.clause,
-        None => false,
-    };
+    // The simulator is deterministic (proved on the unchanged tree), so a failure that does not
+    // recur identically means the code under test read memory whose content is not a function of
+    // the history (uninitialised / freed / out of bounds). Try a few more times before giving up
+    // on minimisation; the violation is reported either way.
+    let mut confirmed = false;
+    for _ in 0..6 {
+        if let Some((p, c, _)) = class_of(prop, &f.spec) {
+            if p == f.prop && c == f.clause {
+                confirmed = true;
+                break;
+            }
+        }
+    }
     let (min, execs) = if confirmed { shrink(prop, &f.spec, (&f.prop, &f.clause), 3000) } else { (f.spec.clone(), 0) };
     let detail = class_of(prop, &min).map(|x| x.2).unwrap_or_else(|| f.detail.clone());
     let path = format!("{}/{}-seed{}-unit{}.replay", dir, f.prop, seed, f.unit);
@@ -206,6 +215,9 @@ pub fn handle_failure(prop: &str, f: &Failure, dir: &str, seed: u64) -> (String,
     text.push_str(&format!("# check={} seed={} unit={} original_ops={} minimised_ops={} shrink_executions={}\n", prop, seed, f.unit, f.spec.ops.len(), min.ops.len(), execs));
     text.push_str(&format!("# build: debug_assertions={} events={} wrapping_version={} 32_components={} hooks={}\n", cfg.debug, cfg.events, cfg.wrapping, cfg!(feature = "32_components"), cfg.hooks));
     text.push_str(&format!("# violated: {}\n", detail.replace('\n', " ")));
+    if !confirmed {
+        text.push_str("# NOTE: this failure was observed once but did not recur when the same trace was re-executed: the outcome depends on memory content that is not a function of the history (uninitialised or freed memory was read). The trace below is the original, unminimised one.\n");
+    }
     text.push_str(&pretty(&min));
     let _ = std::fs::write(&path, &text);
     // the file as written must parse back to the same spec and fail the same way
